@@ -51,7 +51,7 @@ CLAIMS = {
         note=TRUST + "The radix tree itself is third-party code: its contract is assumed, and validated on every run only by a bounded randomised model test against the real tree (reported under bounded_checks, not counted as proof).",
         tech="deductive verification: WP VCs over go/ssa, modular callee contracts with case analysis, opaque spec relation, SMT", ref="4 C05"),
     "C09": dict(
-        text="Lemmas over the verified kernel contracts: zooming in and back out is the identity on each axis for all 36x36 zoom pairs, descendants partition the finer grid, the ancestor of -1 is -1, Higher (the merge ancestor) is the floor ancestor; the exactness of the pairwise overlap relation (C05) gives overlap of nested voxels; the vertical index of a point at a coarser zoom is the floor ancestor of its index at any finer zoom (lemma over the exact contract of the vertical kernel, all 36x36 zoom pairs, IEEE semantics), and likewise for x and y over ideal reals.",
+        text="Lemmas over the verified kernel contracts: zooming in and back out is the identity on each axis for all 36x36 zoom pairs, descendants partition the finer grid, the ancestor of -1 is -1, Higher (the merge ancestor) is the floor ancestor; the exactness of the pairwise overlap relation (C05) gives overlap of nested voxels; the vertical index of a point at a coarser zoom is the floor ancestor of its index at any finer zoom (lemma over the exact contract of the vertical kernel, all 36x36 zoom pairs, IEEE semantics), and likewise for x and y over ideal reals; a second pair of lemmas states the same through the real zoom-change functions: the zoom-out (VerticalZoom / HorizontalZoom contracts) of a point's fine ID is exactly the point's coarse ID, for all zoom pairs.",
         note=TRUST + "The clause 'merging the complete set of descendants returns the ID' depends on the merge body (C04, not decided). The horizontal nesting lemma inherits the ideal-real reading of C01's x and y formulas.",
         tech="deductive verification: lemmas over function contracts, exhaustive zoom case split, SMT", ref="4 C09"),
     "C13": dict(
@@ -83,9 +83,9 @@ CLAIMS = {
         note=TRUST + "Base offsets are bounded by |offset| <= 2^27 (beyond that the int64 shifts wrap; stated precondition).",
         tech="deductive verification: WP VCs over go/ssa, modular callee contracts, exhaustive 36^3 case split, SMT (linear integer arithmetic)", ref="4 C12"),
     "C20": dict(
-        text="Union, Difference, Intersect, Unique, Include, Max, Min are proved (generic bodies and the instances used in the library) against set-theoretic postconditions with map iteration order universally quantified; CalculateArithmeticShift equals floor(index*2^shift) for every shift in -63..63.",
-        note=TRUST + "Combinations and the vector/matrix/quaternion helpers are not yet under contract (DESIGN.md).",
-        tech="deductive verification: WP VCs over go/ssa, quantified loop invariants, map-range bijection model, SMT", ref="4 C20"),
+        text="Union, Difference, Intersect, Unique, Include, Max, Min are proved (generic bodies and the instances used in the library) against set-theoretic postconditions with map iteration order universally quantified; CalculateArithmeticShift equals floor(index*2^shift) for every shift in -63..63. Over ideal reals: every vector, point, line and matrix helper of package spatial (16 functions; the gonum r3 functions they delegate to are translated from their source and verified inline) is proved equal to its component formula, and the laws are lemmas over those contracts: a line's parameter 0 / 1 and Start / End give its end points, the matrix product is associative and agrees with matrix-vector application, the unit matrix is neutral, cross product anticommutative / orthogonal to its factors / zero on equal arguments, dot product commutative, add-sub and translate-by-difference round trips (polynomial identities discharged by z3's nonlinear real procedure). BOUNDED stand-ins, not proofs: Combinations (exhaustive for all 0 <= k <= n <= 12, the property's own quantifier) and the quaternion helpers (unit quaternion carrying start onto end, 20000 seeded random pairs plus axis-aligned and opposite pairs).",
+        note=TRUST + "float64 arithmetic of the spatial helpers is treated as real arithmetic (rounding not decided). Combinations (in-place slice updates) and RotateBetweenVector / QuatFromAxisAngle (sqrt, hypot, sin, cos) are outside the verified subset: they are covered only by the bounded checks in /verif/models, which are listed under bounded_checks in the evidence and never counted as discharged obligations. Norm, Unit, Cos, DistancePoint, IsClose, MaxPoint, MinPoint are not under contract.",
+        tech="deductive verification: WP VCs over go/ssa (dependency source inlined), quantified loop invariants, map-range bijection model, lemmas over contracts with z3 nlsat for polynomial identities; bounded differential tests only as labelled stand-ins", ref="4 C20"),
 }
 
 NOT_YET = {}
